@@ -185,7 +185,22 @@ func c12server(r *Run) {
 				stored = c12stored{enc: string(bv)}
 			}
 			before := st.nputs()
-			if ch.Chance(3, 4, "put.wire") {
+			wire := ch.Chance(3, 4, "put.wire")
+			noSeq := wire && ch.Chance(1, 10, "put.noseq")
+			if noSeq {
+				// a put without `seq`: the node answers 203 (a mutable item cannot be
+				// judged without it; this implementation asks for it on immutable puts
+				// too). It may never store an item the reference rejects, and an
+				// immutable one it does accept must be the right item.
+				a = a.Del("seq")
+				applicable[203] = true
+				desc += "-without-seq"
+				r.Probe("put-without-seq")
+				if mutable {
+					valid = false
+				}
+			}
+			if wire {
 				tok, ok := tokenOf(ask(r, conn, src, Query("get", fmt.Sprintf("g%d", op), benc.Dict{{K: "id", V: string(id[:])}, {K: "target", V: string(target[:])}})))
 				if !ok {
 					r.Violate("get-without-token", "get reply carries no token")
@@ -212,6 +227,15 @@ func c12server(r *Run) {
 				} else if wrote {
 					accepted++
 					ref[target] = stored
+				} else if noSeq {
+					code := int64(-1)
+					if len(ws) == 1 {
+						code, _ = errCode(ws[0].D)
+					}
+					if code != 203 {
+						r.Violate("rejected-put-wrong-answer", "put (%s) was not stored and drew %d datagram(s), error code %d; 203 expected", desc, len(ws), code)
+						return
+					}
 				}
 			} else {
 				// through the Go API
@@ -317,7 +341,7 @@ func c12server(r *Run) {
 
 func keysOf(m map[int64]bool) []int64 {
 	var out []int64
-	for _, k := range []int64{205, 206, 207} {
+	for _, k := range []int64{203, 205, 206, 207} {
 		if m[k] {
 			out = append(out, k)
 		}
